@@ -8,6 +8,7 @@ import (
 	"runtime/debug"
 	"strconv"
 	"strings"
+	"sync/atomic"
 	"time"
 
 	"github.com/wkhere/bcl"
@@ -82,7 +83,16 @@ func implParse(name string, src []byte, wantDisasm bool) string {
 type chunkFile struct {
 	chunks [][]byte
 	i      int
-	closed int
+	closed atomic.Int32
+}
+
+// Closed waits briefly for the reader goroutine (which closes the input just
+// after handing over its result) and returns how often Close was called.
+func (f *chunkFile) Closed() int {
+	for i := 0; i < 2000 && f.closed.Load() == 0; i++ {
+		time.Sleep(time.Millisecond)
+	}
+	return int(f.closed.Load())
 }
 
 func (f *chunkFile) Read(p []byte) (int, error) {
@@ -99,7 +109,7 @@ func (f *chunkFile) Read(p []byte) (int, error) {
 	}
 	return 0, io.EOF
 }
-func (f *chunkFile) Close() error { f.closed++; return nil }
+func (f *chunkFile) Close() error { f.closed.Add(1); return nil }
 func (f *chunkFile) Name() string { return "input" }
 
 // implParseChunks is PARSEC: ParseFile with the input delivered as the given reads.
